@@ -58,7 +58,10 @@ def scenario(e, cfg):
             ctx = filler.__enter__()
             for i in range(n):
                 sp = ("train", "test")[e.choice(f"split{i}", 2)] if cfg["splits"] else "train"
-                v = VALUES[e.choice(f"md{i}", nvals)]
+if i == 0 and "md0" in cfg.get("fixed", {}):
+                    v = VALUES[cfg["fixed"]["md0"]]
+                else:
+                    v = VALUES[e.choice(f"md{i}", nvals)]
                 if i == 0 and "md0" in cfg.get("fixed", {}):
                     e.assume(True)
                 arg = None
@@ -123,12 +126,19 @@ def cells(tier):
         for n in range(0, 4):
             out.append(dict(name="two splits", nmax=3, values=3, splits=True, fixed={"n": n}))
     else:
-        for n in range(0, 7):
-            out.append(dict(name="A/B + in-place reuse", nmax=6, values=4, splits=False, fixed={"n": n}))
-        for n in range(0, 6):
-            out.append(dict(name="A/B/C + in-place reuse", nmax=5, values=5, splits=False, fixed={"n": n}))
+        # measured: ~30 ms per path; a cell must stay far below the 900 s cell budget
         for n in range(0, 5):
-            out.append(dict(name="two splits", nmax=4, values=4, splits=True, fixed={"n": n}))
+            out.append(dict(name="A/B + in-place reuse", nmax=5, values=3, splits=False, fixed={"n": n}))
+        for md0 in range(3):
+            out.append(dict(name="A/B + in-place reuse", nmax=5, values=3, splits=False, fixed={"n": 5, "md0": md0}))
+        for n in range(0, 4):
+            out.append(dict(name="A/B/{} + in-place reuse", nmax=4, values=4, splits=False, fixed={"n": n}))
+        for md0 in range(4):
+            out.append(dict(name="A/B/{} + in-place reuse", nmax=4, values=4, splits=False, fixed={"n": 4, "md0": md0}))
+        for md0 in range(5):
+            out.append(dict(name="A/B/{}/C + in-place reuse", nmax=3, values=5, splits=False, fixed={"n": 3, "md0": md0}))
+        for n in range(0, 4):
+            out.append(dict(name="two splits", nmax=3, values=4, splits=True, fixed={"n": n}))
     return out
 
 
